@@ -30,6 +30,13 @@ var initCmd = &cobra.Command{
 			return errors.New("fail to get current path")
 		}
 		goitDir := filepath.Join(curPath, ".goit")
+		// build the repository under a temporary name and rename it at the end,
+		// so that an interrupted init never leaves a half-made .goit behind
+		finalGoitDir := goitDir
+		goitDir = filepath.Join(curPath, ".goit.init")
+		if err := os.RemoveAll(goitDir); err != nil {
+			return fmt.Errorf("%w: %s", ErrIOHandling, goitDir)
+		}
 		if err := os.Mkdir(goitDir, os.ModePerm); err != nil {
 			return fmt.Errorf("%w: %s", ErrIOHandling, goitDir)
 		}
@@ -75,6 +82,11 @@ var initCmd = &cobra.Command{
 		if err := os.Mkdir(tagsDir, os.ModePerm); err != nil {
 			return fmt.Errorf("%w: %s", ErrIOHandling, tagsDir)
 		}
+
+		if err := os.Rename(goitDir, finalGoitDir); err != nil {
+			return fmt.Errorf("%w: %s", ErrIOHandling, finalGoitDir)
+		}
+		goitDir = finalGoitDir
 
 		// print out message for initialization success
 		fmt.Printf("Initialized empty Goit repository in %s\n", goitDir)
